@@ -29,11 +29,19 @@ def snapshot(mods):
     from flax import nnx
     out = {}
     for name, m in mods.items():
+        m = resolve(m)
         if m is None:
             continue
         leaves = jax.tree_util.tree_leaves(nnx.state(m))
         out[name] = [np.array(x, copy=True) for x in leaves]
     return out
+
+
+def resolve(m):
+    """modules that a routine reaches through an attribute of another object are registered as thunks, so that every
+    snapshot sees the object currently installed there (not the one installed when the run started)"""
+    import types
+    return m() if isinstance(m, types.FunctionType) else m
 
 
 def same(a, b):
@@ -147,9 +155,9 @@ def run(name, script, total, start=0, limit=None, warm=0, batch=2, cap=1000, see
             def rec_policy(embedding, actor):     # train_td7 builds policy, policy_target, [checkpoint] in this order
                 p = orig_pol(embedding, actor)
                 tag = ["fixed_embedding", "fixed_embedding_target", "fixed_embedding_checkpoint"][len(made)]
-                mods[tag] = embedding
+                mods[tag] = lambda p=p: p.embedding
                 if tag == "fixed_embedding_checkpoint":
-                    mods["actor_checkpoint"] = actor
+                    mods["actor_checkpoint"] = lambda p=p: p.actor
                 made.append(p)
                 return p
 
